@@ -171,6 +171,7 @@ fn resolve_promise(
                     on_fulfilled: None,
                     on_rejected: None,
                     result_promise: promise_clone,
+                    is_finally: false,
                 });
                 return Ok(());
             }
@@ -339,6 +340,18 @@ fn trigger_handler(
                 false
             };
 
+            // A finally callback takes no arguments and does not change the settlement
+            // (unless it throws)
+            if handler.is_finally {
+                return match interp.call_function(cb, JsValue::Undefined, &[]) {
+                    Ok(_) if is_fulfilled => {
+                        fulfill_promise(interp, &handler.result_promise, value.clone())
+                    }
+                    Ok(_) => reject_promise(interp, &handler.result_promise, value.clone()),
+                    Err(e) => reject_promise(interp, &handler.result_promise, e.to_value()),
+                };
+            }
+
             // Call the callback
             match interp.call_function(cb, JsValue::Undefined, core::slice::from_ref(value)) {
                 Ok(Guarded { value: result, .. }) => {
@@ -470,6 +483,7 @@ pub fn promise_then(
                 on_fulfilled,
                 on_rejected,
                 result_promise: result_promise.cheap_clone(),
+                is_finally: false,
             });
         }
         PromiseStatus::Fulfilled => {
@@ -479,6 +493,7 @@ pub fn promise_then(
                 on_fulfilled,
                 on_rejected,
                 result_promise: result_promise.cheap_clone(),
+                is_finally: false,
             };
             trigger_handler(interp, handler, &value, true)?;
         }
@@ -489,6 +504,7 @@ pub fn promise_then(
                 on_fulfilled,
                 on_rejected,
                 result_promise: result_promise.cheap_clone(),
+                is_finally: false,
             };
             trigger_handler(interp, handler, &reason, false)?;
         }
@@ -547,11 +563,13 @@ pub fn promise_finally(
                     let ExoticObject::Promise(ref state) = obj.exotic else {
                         return Err(JsError::type_error("Not a promise"));
                     };
-                    // Store callback in both slots - we'll call it regardless
+                    // Store callback in both slots - we'll call it regardless, without
+                    // arguments, and pass the settlement through
                     state.borrow_mut().handlers.push(PromiseHandler {
                         on_fulfilled: Some(callback.clone()),
                         on_rejected: Some(callback),
                         result_promise: result_promise.cheap_clone(),
+                        is_finally: true,
                     });
                 }
                 PromiseStatus::Fulfilled => {
@@ -802,6 +820,7 @@ pub fn promise_all(
                     on_fulfilled: Some(JsValue::Object(on_fulfilled)),
                     on_rejected: Some(JsValue::Object(on_rejected)),
                     result_promise: result_promise.cheap_clone(),
+                    is_finally: false,
                 });
             }
         }
@@ -1019,6 +1038,7 @@ pub fn promise_race(
                 on_fulfilled: Some(JsValue::Object(on_fulfilled)),
                 on_rejected: Some(JsValue::Object(on_rejected)),
                 result_promise: result_promise.cheap_clone(),
+                is_finally: false,
             });
         }
     }
